@@ -322,6 +322,15 @@ fn rand_arg(r: &mut Rng, big: bool) -> Value {
         let mb = *r.pick(&[26u32, 26, 40, 64, 100]);
         return limb_int(r, mb);
     }
+    if r.chance(1, 12) {
+        // lengths around the byte boundaries of LENGTH-valued results (strlen, substr indices) and size limits
+        let n = *r.pick(&[127usize, 128, 129, 255, 256, 257]);
+        let mut b = r.bytes(n);
+        if r.chance(1, 2) {
+            b[0] &= 0x7f;
+        }
+        return atom_json(&b);
+    }
     match r.below(20) {
         0 => json!({"f": atom_json(&rand_atom_bytes(r, 4)), "r": atom_json(&rand_atom_bytes(r, 4))}),
         1 if big => {
